@@ -207,10 +207,11 @@ func init() {
 	})
 	register(&Check{
 		ID: "C05",
-		Expl: "Decides one clause of the statement — 'the caller's buffer is left unmodified' — for every function on the decode side of pkg/packet/bgp: no store, copy, append-in-place or in-place mutator targets a []byte parameter or memory derived from it (interprocedural taint with writes-param / returns-alias summaries), and no field that retains a sub-slice of the input is written through anywhere in the module.",
+		Expl: "Decides one clause of the statement — 'the caller's buffer is left unmodified' — for every function on the decode side of pkg/packet/bgp: no store, copy, append-in-place or in-place mutator targets a []byte parameter or memory derived from it (interprocedural taint with writes-param / returns-alias summaries), and no field that retains a sub-slice of the input is written through anywhere in the module. Also decides one cause of crashes exactly: (E5.narrow-guard) no length guard is computed in uint8/uint16 arithmetic that can wrap for some peer-chosen length (upper bounds from constants, widening conversions and dominating comparisons).",
 		Not: "Crash-freedom, termination, bounded allocation and in-bounds access are NOT decided: a length-guard prover was prototyped and left 181 of 453 slice accesses unproven (value relations between cached lengths and slices), so it is not armed (DESIGN.md §6.1).",
 		Run: func(c *Ctx) {
 			c.ruleInputImmutable("E2c.input", []string{"pkg/packet/bgp"}, 120)
+			c.ruleNarrowGuard("E5.narrow-guard", []string{"pkg/packet/bgp"}, 3)
 		},
 	})
 	register(&Check{
